@@ -319,6 +319,26 @@ def conv_batch(payload):
     return {"results": out, "bound": sorted(context.bind.keys())}
 
 
+def numlit_batch(payload):
+    """payload: {"texts": [...]} -> what the real visitNumericLiteral makes of each NUMERIC_LITERAL text"""
+    from lsst.daf.butler import DimensionUniverse
+    from lsst.daf.butler.queries._expression_strings import _ConversionVisitor
+    from lsst.daf.butler.queries._identifiers import IdentifierContext
+
+    universe = DimensionUniverse()
+    visitor = _ConversionVisitor(IdentifierContext(universe.conform(["detector"]), frozenset(), {}), universe)
+    out = []
+    for t in payload["texts"]:
+        try:
+            r = visitor.visitNumericLiteral(t, None)
+            v = r.value.value
+            out.append({"type": r.value.expression_type, "int": v if isinstance(v, int) and not isinstance(v, bool) else None,
+                        "float": float(v) if isinstance(v, float) else None})
+        except Exception as e:  # noqa: BLE001
+            out.append({"exc": type(e).__name__})
+    return {"results": out}
+
+
 # ------------------------------------------------------------------------------------------------
 
 def _populate(butler):
